@@ -36,18 +36,21 @@ def _kinds(ucoefs, others):
     return tuple((c, "u") for c in ucoefs) + tuple(others)
 
 
+# sqrt(p x + q) = x + r: squaring gives two integer candidates, the smaller of which is not a root
+RADICALS = [(1, 0, -2), (2, 3, 0), (1, 6, 0), (1, 1, -1), (1, 2, 0), (4, 5, 0), (3, 1, -1)]
+
 CFG = {
     "quick": dict(TermKinds=_kinds(U_COEFS, OTHERS_QUICK), MaxTerms=3, MaxU=2, Forms={"expr", "eqL", "eqU", "eqO"},
                   ApplyFns={"dota", "plusu", "norm"}, ApplyMaxTerms=2,
                   NonVecKinds={"nu", "dua", "x", "xdab"}, ScalK2={"zero", "one"}, ScalK1={"zero", "one", "y", "yinv"},
-                  ScalK0={"one", "y", "my2", "m1", "dab"}, Assigns=vx.ASSIGNS),
+                  ScalK0={"one", "y", "my2", "m1", "dab"}, RadicalEqs=set(RADICALS[:4]), Assigns=vx.ASSIGNS),
     "thorough": dict(TermKinds=_kinds(U_COEFS, OTHERS_MORE), MaxTerms=4, MaxU=2, Forms={"expr", "eqL", "eqU", "eqO"},
                      ApplyFns={"dota", "twice", "plusu", "norm", "crossb"}, ApplyMaxTerms=2,
                      NonVecKinds={"nu", "dua", "x", "xdab"}, ScalK2={"zero", "one", "y"},
                      ScalK1={"zero", "one", "y", "yinv", "dab", "two"},
-                     ScalK0={"one", "y", "my2", "m1", "dab", "duu", "zero"}, Assigns=vx.ASSIGNS),
+                     ScalK0={"one", "y", "my2", "m1", "dab", "duu", "zero"}, RadicalEqs=set(RADICALS), Assigns=vx.ASSIGNS),
 }
-INVARIANTS = ["TypeOK", "MoveNegates", "Equivalent", "Solution", "RefusalRule"]
+INVARIANTS = ["TypeOK", "MoveNegates", "Equivalent", "Solution", "RefusalRule", "RadicalsMeaningful"]
 ORDERS = {"quick": [(0, 1, 2, 3), (2, 1, 0, 3)], "thorough": [(0, 1, 2, 3), (2, 1, 0, 3), (1, 2, 0, 3)]}
 SHARDS = {"quick": 2, "thorough": 8}
 LIMIT_S = 20
@@ -85,6 +88,11 @@ def build_equation(shape, leaves):
         expr = vx.build(shape["ts"][0], leaves, True)
         return expr if form == "expr" else sp.Eq(expr, 0, evaluate=False)
     x = leaves["scal"][1]
+    if shape["mode"] == "radical":
+        p_, q_, r_ = (vx.build(p, leaves, True) for p in shape["ts"])
+        if form == "expr":
+            return sp.sqrt(p_ * x + q_) - x - r_
+        return sp.Eq(sp.sqrt(p_ * x + q_), x + r_, evaluate=False)
     k2, k1, k0 = (vx.build(p, leaves, True) for p in shape["ts"])
     if form == "expr":
         return k2 * x**2 + k1 * x + k0
@@ -115,11 +123,11 @@ def replay_one(job):  # pylint: disable=too-many-locals,too-many-branches,too-ma
     shape = job["shape"]
     leaves = pool.leaves(job["order"])
     envs = [pool.env(leaves, a) for a in vx.ASSIGNS]
-    names = pool.names(leaves)
+    names = pool.names_of(leaves)
     u, x = leaves["vec"][1], leaves["scal"][1]
     eqn = build_equation(shape, leaves)
     op = shape["op"]
-    rec = dict(op={"solve": "solve", "apply": "apply", "solve_scalar": "scalar"}[op], ts=shape["ts"],
+    rec = dict(op={"solve": "solve", "apply": "apply", "solve_scalar": "scalar", "solve_radical": "radical"}[op], ts=shape["ts"],
                nonvec=1 if shape["mode"] == "nonvec" else 0, reduce=1 if shape["reduce"] else 0, fn=shape["fn"],
                outcome="eq", lhs=[], rhs=[])
     try:
@@ -149,12 +157,27 @@ def replay_one(job):  # pylint: disable=too-many-locals,too-many-branches,too-ma
         return job, "outside", "solve_for_scalar: " + raised, [rec], str(eqn)
 
     # ---- an object was returned
-    if op == "solve_scalar":
+    import sympy as sp
+    from sympy.logic.boolalg import BooleanFalse, BooleanTrue
+    if op in ("solve_scalar", "solve_radical"):
         recs, bad, und = [], [], None
         k2, k1, k0 = (vx.build(p, leaves, True) for p in shape["ts"])
-        f = k2 * x**2 + k1 * x + k0
+        f = k2 * x**2 + k1 * x + k0 if op == "solve_scalar" else sp.sqrt(k2 * x + k1) - x - k0
+        if not isinstance(res, (list, tuple)):
+            return job, "violation", f"solve_for_scalar returned {type(res).__name__}, not a list of equations", [], str(eqn)
         for eq in res:
             r = dict(rec)
+            if isinstance(eq, BooleanFalse):      # Eq(x, non-real value) for the real symbol: no solution of the equation
+                r["outcome"] = "false"
+                recs.append(r)
+                bad.append("an unsatisfiable equation (False) was returned as a solution")
+                continue
+            if isinstance(eq, BooleanTrue):
+                und = "returned the trivial equation True"
+                continue
+            if not isinstance(eq, sp.Eq):
+                bad.append(f"returned {type(eq).__name__} {eq}, not an equation")
+                continue
             try:
                 r["lhs"] = vx.compile_expr(eq.lhs, names)[0]
                 r["rhs"] = vx.compile_expr(eq.rhs, names)[0]
@@ -180,6 +203,16 @@ def replay_one(job):  # pylint: disable=too-many-locals,too-many-branches,too-ma
             return job, "outside", "solve_for_scalar: " + und[:80], recs, str(eqn)
         return job, "ok", str(res), recs, str(eqn)
 
+    # what the library returned must be an equation; SymPy evaluates Eq(u, u) to True and an impossible Eq to False
+    if isinstance(res, BooleanTrue):
+        res = sp.Eq(sp.S.Zero, sp.S.Zero, evaluate=False)          # the equation 0 = 0: lhs - rhs = 0
+    elif isinstance(res, BooleanFalse):
+        rec["outcome"] = "false"
+        if op == "solve" and shape["mode"] == "vec" and any(e_["kind"] == "open" for e_ in shape["exp"]):
+            return job, "outside", "unknown's terms cancel: False returned", [rec], str(eqn)
+        return job, "violation", "the unsatisfiable equation (False) was returned: not equivalent to the original", [rec], str(eqn)
+    elif not isinstance(res, sp.Eq):
+        return job, "violation", f"{type(res).__name__} {str(res)[:80]} was returned, not an equation", [], str(eqn)
     try:
         rec["lhs"] = vx.compile_expr(res.lhs, names, want="v" if op == "solve" else None)[0]
         rec["rhs"] = vx.compile_expr(res.rhs, names, want="v" if op == "solve" else None)[0]
@@ -331,7 +364,7 @@ def main() -> int:
         run.coverage["model_expectations"] = expected
         jobs = []
         for shape in shapes:
-            used = [["vec", 1], ["vec", 2], ["vec", 3]] if shape["mode"] != "scalar" else [["vec", 1]]
+            used = [["vec", 1], ["vec", 2], ["vec", 3]] if shape["mode"] not in ("scalar", "radical") else [["vec", 1]]
             for order in vx.orders_for(used, orders):
                 jobs.append(dict(shape=shape, order=order))
         run.coverage["calls"] = len(jobs)
